@@ -75,6 +75,17 @@ def run(chk):
         if a != b:
             chk.violate({"kind": "property", "case": lib.show_case(c), "impl": a, "fresh_parse": b,
                          "explanation": "parsing an architecture name into a value that was used before gives another triple than a fresh parse"})
+    # what the parsers hand out belongs to the caller: after the caller edited the values it got for a name, the same name
+    # parsed again (alone, in a list, as qualifier, as list entry) still denotes its own triple
+    simple = [n for n in ok_names if all(c not in n for c in b" !,|[]<>()$:")]
+    ac = [("aalias", [n, rng.choice(simple)]) for n in rng.sample(simple, min(len(simple), 400))]
+    aa = chk.run_impl(ac)
+    af = chk.run_impl([("aparse", [c[1][0]]) for c in ac])
+    chk.record("arch-results-owned-by-caller", ac, aa, lambda c, r: True)
+    for c, a, f in zip(ac, aa, af):
+        if a != " | ".join([f] * 4):
+            chk.violate({"kind": "property", "case": lib.show_case(c), "impl": a, "fresh_parse": f,
+                         "explanation": "after the caller edited the architecture values an earlier parse returned, parsing the same name again gives another triple"})
     chk.extra["arch_names_exhaustive"] = {"tokens": [x.decode() for x in TOK], "max_parts": 4}
     chk.assumptions += ["architecture names with an empty component ('', '-', 'linux-', '--') are refused by ParseArch (repair 2fb87ac) and so are outside the round trip"]
 
